@@ -1,12 +1,14 @@
 /-
   C16 — the serde form is exactly the string form.
 
-  Partial by nature (see the manifest's level_note): the theorems are about `Serialize` /
-  `Deserialize` as the library implements them over an abstract JSON value; serde_json's own
-  string escaping / unescaping and its dispatch to `visit_str` are covered by the correspondence
-  run (harness built with `--features serde`), not by a theorem.
+  The theorems are about `Serialize` / `Deserialize` as the library implements them over an abstract
+  value of serde's data model, and about serde_json's string layer AS MODELLED in PurlModel/JsonText.lean
+  (escaping on output, unescaping incl. \u and surrogate pairs on input).  That model of serde_json is
+  hand-written and tied to the real crate only by the correspondence run (harness built with
+  `--features serde`); its dispatch of other value kinds is not modelled beyond "not a string".
 -/
 import PurlModel.Serde
+import PurlModel.Lemmas.JsonText
 import PurlModel.Props.C01
 namespace Purl.C16
 open Purl Purl.Generated
@@ -48,6 +50,38 @@ theorem json_roundtrip_typed (s : Str) (p : GPurl PkgType) (h : parseP U s = .ok
   refine ⟨.str (formatParts p.ty.name p.parts), ?_, ?_⟩
   · exact ser_is_canonical_string PkgType.name p _ h1
   · rw [de_str_iff_parse]; exact h2
+
+/-- the text layer: the JSON document written for a string value is read back as that string value —
+for every string (quotes, backslashes, control characters, any Unicode) -/
+theorem json_text_roundtrip (cs : Str) : jsonDoc (jsonQuote cs) = some (.str cs) := jsonDoc_jsonQuote cs
+
+/-- A PURL SURVIVES A JSON ROUND TRIP, text included: serialise, write the document, read the document,
+deserialise — the same PURL (String and PackageType) -/
+theorem json_document_roundtrip_string (s : Str) (p : GPurl Str) (h : parseS U s = .ok p) :
+    ∃ cs, ser id p = .ok (.str cs) ∧ jsonDoc (jsonQuote cs) = some (.str cs) ∧
+      ∀ v, jsonDoc (jsonQuote cs) = some v → de (parseS U) v = .ok p := by
+  obtain ⟨h1, h2⟩ := C01.roundtrip_string U s p h
+  refine ⟨formatParts p.ty p.parts, ser_is_canonical_string id p _ h1, jsonDoc_jsonQuote _, ?_⟩
+  intro v hv
+  rw [jsonDoc_jsonQuote] at hv
+  cases hv
+  rw [de_str_iff_parse]; exact h2
+
+theorem json_document_roundtrip_typed (s : Str) (p : GPurl PkgType) (h : parseP U s = .ok p) :
+    ∃ cs, ser PkgType.name p = .ok (.str cs) ∧ jsonDoc (jsonQuote cs) = some (.str cs) ∧
+      ∀ v, jsonDoc (jsonQuote cs) = some v → de (parseP U) v = .ok p := by
+  obtain ⟨h1, h2⟩ := C01.roundtrip_typed U s p h
+  refine ⟨formatParts p.ty.name p.parts, ser_is_canonical_string PkgType.name p _ h1, jsonDoc_jsonQuote _, ?_⟩
+  intro v hv
+  rw [jsonDoc_jsonQuote] at hv
+  cases hv
+  rw [de_str_iff_parse]; exact h2
+
+/-! non-vacuity of the text layer: a string with every escape class -/
+set_option maxRecDepth 100000 in
+example : jsonQuote "a\"b\\c\n\x01é".toList = "\"a\\\"b\\\\c\\n\\u0001é\"".toList := by decide
+example : jsonDoc [' ', '"', '\\', 'u', 'd', '8', '3', 'd', '\\', 'u', 'd', 'e', '0', '0', '\\', '/', '"', '\n'] = some (.str ['😀', '/']) := by
+  decide +kernel
 
 /-- the serde name of each package type is its name -/
 theorem pkg_type_serde_name (t : PkgType) : t.serdeName = t.name := by cases t <;> decide
